@@ -2,7 +2,9 @@
    Model: Model/ChanFlow.v (one connection, I/O thread + producing worker + tails +
    environment, Appendix-A granularity).  [run p sched] is the state after an
    arbitrary schedule (all interleavings, all lengths, all environment behaviour);
-   p carries high_watermark, send_bytes, lookahead and the write sizes. *)
+   p carries high_watermark, send_bytes, lookahead, the write sizes, and three shape flags:
+   [fixed p] = the code as it is (6aba4bf, daf1a85, 7fa6a60 applied; the shape audit pins it);
+   a flag set to false = the statement as it was before that repair. *)
 From Coq Require Import List ZArith Bool Arith.
 From WV Require Import Lib.Conc Model.ChanFlow Proof.ChanFlow Proof.ChanFlowReq Proof.ChanFlowFlags
   Proof.ChanFlowAcct Proof.ChanFlowLive Proof.ChanFlowWit Proof.ChanFlowRefuted.
@@ -46,61 +48,51 @@ Print Assumptions C12_order_exclusive.
 
 (* ---- release --------------------------------------------------------------------- *)
 
-(* the full statement (Proof/ChanFlowRefuted.v): whenever the I/O thread is idle (blocked in
-   select, or spinning through poll turns that change nothing) and the client reads, no producer
-   is parked un-notified *)
-Theorem C12_release_partial : forall p,
-  1 <= hw p -> sb p <= hw p -> tail_safe p -> C12_release_statement p.
-Proof. exact release_partial. Qed.
-Print Assumptions C12_release_partial.
-
-(* without send_bytes <= high_watermark: no bad QUIESCENT state (I/O thread blocked in select) *)
-Theorem C12_release_blocked_partial : forall p sched, 1 <= hw p -> tail_safe p ->
-  let s := run p sched in
-  io_blocked s = true -> client_reads s = true -> w_parked s = true -> False.
-Proof. exact release_blocked. Qed.
-Print Assumptions C12_release_blocked_partial.
+(* FULL STRENGTH, every 0 <= high_watermark (0 included), every send_bytes, lookahead, residue:
+   whenever the I/O thread is idle (blocked in select, or spinning through poll turns that change
+   nothing) and the client reads, no producer is parked un-notified *)
+Theorem C12_release : forall p, 0 <= hw p -> fixed p -> C12_release_statement p.
+Proof. exact release_full. Qed.
+Print Assumptions C12_release.
 
 (* an "idle-spinning" I/O thread really makes no progress: one poll turn later the state is the same *)
 Theorem C12_spin_is_stuck : forall p s, io_spinning p s = true ->
-  steps_io p s 9 = Some s \/ steps_io p s 10 = Some s.
+  steps_io p s 9 = Some s \/ steps_io p s 10 = Some s \/ steps_io p s 11 = Some s.
 Proof. exact spin_cycle. Qed.
 Print Assumptions C12_spin_is_stuck.
 
-(* F23: refuted at high_watermark = 0 (quiescent, total = 0, client reading, producer parked) *)
-Theorem C12_release_refuted_hw_zero :
-  exists p sched, hw p = 0 /\ tail_safe p /\
-    let s := run p sched in
-    quiescent s = true /\ io_blocked s = true /\ client_reads s = true /\ w_parked s = true
-    /\ total s = 0 /\ connected s = true.
-Proof. exact release_refuted_hw_zero. Qed.
-Print Assumptions C12_release_refuted_hw_zero.
+(* each repair is necessary: the statement is false for the old shape of that line *)
+Theorem C12_release_refuted_old_notify_hw_zero :
+  exists p, hw p = 0 /\ fx_notify_le p = false /\ fx_drain p = true /\ fx_recheck p = true
+    /\ ~ C12_release_statement p
+    /\ exists sched, let s := run p sched in
+       quiescent s = true /\ client_reads s = true /\ w_parked s = true /\ total s = 0 /\ connected s = true.
+Proof. exact release_refuted_old_notify_hw_zero. Qed.
+Print Assumptions C12_release_refuted_old_notify_hw_zero.
 
-(* refuted whenever a producer can be parked with total below send_bytes (high_watermark < send_bytes) *)
-Theorem C12_release_refuted_below_send_bytes :
-  exists p sched, 1 <= hw p /\ tail_safe p /\ ~ C12_release_statement p /\
-    let s := run p sched in
-    io_spinning p s = true /\ client_reads s = true /\ w_parked s = true /\ hw p < total s < sb p.
-Proof. exact release_refuted_below_send_bytes. Qed.
-Print Assumptions C12_release_refuted_below_send_bytes.
+Theorem C12_release_refuted_old_notify_at_mark :
+  exists p, 1 <= hw p /\ fx_notify_le p = false /\ fx_drain p = true /\ fx_recheck p = true
+    /\ ~ C12_release_statement p
+    /\ exists sched, let s := run p sched in
+       io_spinning p s = true /\ client_reads s = true /\ w_parked s = true /\ total s = hw p.
+Proof. exact release_refuted_old_notify_at_mark. Qed.
+Print Assumptions C12_release_refuted_old_notify_at_mark.
 
-(* ... including the drain that ends exactly AT the mark (total = high_watermark >= 1) *)
-Theorem C12_release_refuted_at_mark :
-  exists p sched, 1 <= hw p /\ tail_safe p /\
-    let s := run p sched in
-    io_spinning p s = true /\ client_reads s = true /\ w_parked s = true /\ total s = hw p.
-Proof. exact release_refuted_at_mark. Qed.
-Print Assumptions C12_release_refuted_at_mark.
+Theorem C12_release_refuted_old_drain :
+  exists p, 1 <= hw p /\ fx_notify_le p = true /\ fx_drain p = false /\ fx_recheck p = true
+    /\ ~ C12_release_statement p
+    /\ exists sched, let s := run p sched in
+       io_spinning p s = true /\ client_reads s = true /\ w_parked s = true /\ hw p < total s < sb p.
+Proof. exact release_refuted_old_drain. Qed.
+Print Assumptions C12_release_refuted_old_drain.
 
 (* ---- abort ------------------------------------------------------------------------- *)
 
-(* a producer parked while the connection is torn down is notified by the very next step of
-   handle_close ... *)
-Theorem C12_abort_partial : forall p sched, 0 <= hw p -> tail_safe p ->
-  let s := run p sched in
-  w_parked s = true -> connected s = false -> is_hcnotify (io s) = true.
-Proof. exact abort_notified. Qed.
-Print Assumptions C12_abort_partial.
+(* FULL STRENGTH: a producer parked while the connection is torn down is notified by the very next
+   step of handle_close ... *)
+Theorem C12_abort : forall p, 0 <= hw p -> fixed p -> C12_abort_statement p.
+Proof. exact abort_full. Qed.
+Print Assumptions C12_abort.
 
 (* ... and its first step after waking raises ClientDisconnected without appending anything *)
 Theorem C12_abort_raises : forall p s r s' l,
@@ -118,12 +110,10 @@ Theorem C12_abort_raise_step : forall p s r s' l,
 Proof. exact raise_step. Qed.
 Print Assumptions C12_abort_raise_step.
 
-(* refuted when lookahead >= 1 and a closed outbuf still reports bytes: the service()-side
-   _flush_outbufs_below_high_watermark parks a worker on a channel that is already closed *)
-Theorem C12_abort_refuted_tail_race :
-  exists p sched, 1 <= hw p /\ sb p <= hw p /\
-    let s := run p sched in
-    quiescent s = true /\ w_parked s = true /\ connected s = false /\ in_map s = false
-    /\ is_hcnotify (io s) = false.
-Proof. exact abort_refuted_tail_race. Qed.
-Print Assumptions C12_abort_refuted_tail_race.
+Theorem C12_abort_refuted_old_recheck :
+  exists p, 1 <= hw p /\ sb p <= hw p /\ fx_notify_le p = true /\ fx_drain p = true /\ fx_recheck p = false
+    /\ ~ C12_abort_statement p
+    /\ exists sched, let s := run p sched in
+       quiescent s = true /\ w_parked s = true /\ connected s = false /\ in_map s = false.
+Proof. exact abort_refuted_old_recheck. Qed.
+Print Assumptions C12_abort_refuted_old_recheck.
